@@ -217,6 +217,63 @@ def run(model: RepoModel, rep, tier: str):
     _r5_per_callee_accumulation(model, rep, st, gss)
     from .c10 import check_summary_accumulates
     check_summary_accumulates(model, rep, "C07.R6", declare=True)
+    _r7_inherited_methods(model, rep)
+    _r8_call_site_budget(model, rep, "C07.R8")
+
+
+TH = "basics/type_hierarchy.py"
+
+
+def _r7_inherited_methods(model: RepoModel, rep):
+    """Calls of inherited methods are resolved through the per-class method table, which TypeHierarchy builds as own methods + the
+    tables of the parents.  Decided: the parents' tables are complete when they are read, every parent contributes, every class gets
+    a table."""
+    rep.rule("C07.R7", "inherited methods are callable: a class's method table is its own methods plus its parents' COMPLETE tables (a parent "
+                       "is built before its table is read), every parent contributes, and every class declaration of the type graph gets a table", 4)
+    from ..generic import check_accumulators
+    from ..generic2 import check_ensure_before_get
+    th = model.module(TH).classes.get("TypeHierarchy")
+    if th is None:
+        raise AnalysisError("TypeHierarchy vanished")
+    if check_ensure_before_get(model, rep, "C07.R7", [TH]) < 1:
+        raise AnalysisError("TypeHierarchy no longer has a builder of the shape F(x): F(parent); get(parent); save(x)")
+    check_accumulators(model, rep, "C07.R7", [TH], {}, "the methods of the parents not yet visited are missing from the class's table, so a call of "
+                       "such an inherited method has no callee", 0, declare=False)
+    # every class declaration is visited by the driver
+    run_f = th.methods.get("run")
+    adj = [f for f in th.methods.values() if any(isinstance(c, ast.Call) and isinstance(c.func, ast.Attribute) and c.func.attr == "save_methods_in_class"
+                                                 for c in walk_no_nested(f.node))]
+    if run_f is None or not adj:
+        raise AnalysisError("TypeHierarchy.run / the method that saves methods_in_class vanished")
+    key = f"{TH}::TypeHierarchy.run::every class declaration of the type graph gets its method table"
+    loops = [L for L in walk_no_nested(run_f.node) if isinstance(L, ast.For) and any(
+        isinstance(c, ast.Call) and is_self_attr(c.func, adj[0].name) for c in ast.walk(L))]
+    early = [x for L in loops for x in ast.walk(L) if isinstance(x, (ast.Break, ast.Return))]
+    over_graph = [L for L in loops if "graph" in norm(L.iter)]
+    if over_graph and not early:
+        rep.holds("C07.R7", key, TH, over_graph[0].lineno, f"loop over `{norm(over_graph[0].iter)}` calls {adj[0].name} for class declarations, no early exit")
+    else:
+        rep.violation("C07.R7", key, TH, run_f.node.lineno,
+                      f"TypeHierarchy.run no longer calls {adj[0].name} for every node of the type graph (or leaves the loop early): classes "
+                      f"without a saved method table resolve no method call, inherited or not")
+    # the memo guard of the builder marks the class BEFORE recursing (cyclic inheritance terminates) and saves on every path after it
+    a = adj[0]
+    cfg = cfg_of(a.node)
+    saves = {n for n in cfg.g.nodes for c in cfg.calls_at(n) if isinstance(c.func, ast.Attribute) and c.func.attr == "save_methods_in_class"}
+    marks = [n for n in cfg.g.nodes for c in cfg.calls_at(n) if isinstance(c.func, ast.Attribute) and c.func.attr == "add" and is_self_attr(c.func.value)]
+    key = f"{TH}::{a.qualname}::a class marked as analysed has its table saved"
+    if marks and all(cfg.path_avoiding(m, cfg.EXIT, saves) is None for m in marks):
+        rep.holds("C07.R7", key, TH, a.node.lineno, "every path from the memo mark to the exit passes save_methods_in_class")
+    else:
+        rep.violation("C07.R7", key, TH, a.node.lineno,
+                      f"{a.qualname} can return after marking the class as analysed without saving its method table: the class is never "
+                      f"revisited, so its methods (own and inherited) stay unknown to call resolution")
+
+
+def _r8_call_site_budget(model: RepoModel, rep, RID: str):
+    """arithmetic of the per-call-site analysis budget, from the code's own constant and increment sites"""
+    from .c09 import check_call_site_budget
+    check_call_site_budget(model, rep, RID, declare=True)
 
 
 DU = "basics/stmt_def_use_analysis.py"
